@@ -9,6 +9,7 @@ from .. import e1, symslice
 from ..astx import self_attr, walk_no_nested, dotted, call_name, parent, dominating_conditions, flatten_conditions, \
     func_params, kwarg, ancestors
 from ..core import norm, Inconclusive
+from .. import pat
 
 
 # ------------------------------------------------------------------------------------------------ R01a
@@ -192,8 +193,10 @@ def r01b(ctx):
                           f"would be dropped from, or duplicated in, the script")
     # -- _add_node cell table
     cell = {}
+    _st, _b = pat.first("self.edit_matrix[A][B] = E", add.node)
+    cell_var = _b["E"] if _b else "edit"
     for s in walk_no_nested(add.node):
-        if isinstance(s, ast.Assign) and isinstance(s.targets[0], ast.Name) and s.targets[0].id == "edit" \
+        if isinstance(s, ast.Assign) and isinstance(s.targets[0], ast.Name) and s.targets[0].id == cell_var \
                 and isinstance(s.value, ast.Call):
             facts = [ast.unparse(t).replace(" ", "") for t, pol in flatten_conditions(dominating_conditions(s)) if pol]
             nfacts = [ast.unparse(t).replace(" ", "") for t, pol in flatten_conditions(dominating_conditions(s)) if not pol]
@@ -291,12 +294,19 @@ def r01b(ctx):
     # -- back-trace in edits()
     src = ast.unparse(edits.node).replace(" ", "")
     n_ob += 1
-    checks = {
-        "starts at the last cell": "row,col=(len(self.to_seq),len(self.from_seq))" in src or "row,col=len(self.to_seq),len(self.from_seq)" in src,
-        "loops while either index is positive": "whilerow>0orcol>0" in src,
-        "moves to the returned predecessor": "row,col=(prev_row,prev_col)" in src or "row,col=prev_row,prev_col" in src,
-        "appends the returned edit": ".append(edit)" in src,
-    }
+    _w, wb = pat.first("R > 0 or C > 0", edits.node)
+    loop = next((x for x in walk_no_nested(edits.node) if isinstance(x, ast.While) and wb and x.test is _w), None)
+    checks = {"loops while either index is positive": loop is not None}
+    if loop is not None:
+        R, C = wb["R"], wb["C"]
+        checks["starts at the last cell"] = pat.has(f"{R}, {C} = len(self.to_seq), len(self.from_seq)", edits.node, stmts=True)
+        _s, sb = pat.first(f"P, Q, E = self._best_match({R}, {C})", loop)
+        checks["asks _best_match for the predecessor of the current cell"] = sb is not None
+        if sb:
+            checks["moves to the returned predecessor"] = pat.has(f"{R}, {C} = {sb['P']}, {sb['Q']}", loop, stmts=True)
+            checks["appends the returned edit"] = bool(pat.find_expr(f"L.append({sb['E']})", loop))
+    else:
+        checks["starts at the last cell"] = False
     bad = [k for k, v in checks.items() if not v]
     if bad:
         ctx.violation("R01b", f, "EditDistance.edits", edits.node, "back-trace",
@@ -309,7 +319,8 @@ def r01b(ctx):
     rtxt = ast.unparse(rets[-1].value).replace(" ", "") if rets else ""
     order_ok = rtxt.startswith("itertools.chain((Match(") and f"self.{pre})" in rtxt and "reversed(self.__edits)" in rtxt \
         and rtxt.index(f"self.{pre}") < rtxt.index("reversed(self.__edits)")
-    suffix_first = f"inself.{suf}]" in src and src.index(f"inself.{suf}]") < src.index("whilerow>0orcol>0")
+    sfx = [c for c in walk_no_nested(edits.node) if isinstance(c, ast.ListComp) and self_attr(c.generators[0].iter) == suf]
+    suffix_first = bool(sfx) and loop is not None and sfx[0].lineno < loop.lineno
     if order_ok and suffix_first:
         ctx.proved("R01b", f, "EditDistance.edits", rets[-1], "emission order",
                    "prefix matches, then the reversed back-trace whose first entries are the suffix matches")
@@ -390,12 +401,16 @@ def r01c(ctx):
                               f"collection (the node's own children): the comparison would alter an input tree and a "
                               f"second comparison sees different children")
     # pre-match bookkeeping: the number of recorded kvp edits equals what is subtracted from both sides
-    pm = [s for s in walk_no_nested(init.node) if isinstance(s, ast.Assign) and isinstance(s.targets[0], ast.Name)
-          and s.targets[0].id == "num_matched"]
+    pm = []
     n += 1
-    src = ast.unparse(init.node).replace(" ", "")
-    if pm and f"min({F}[f],{T}[t])" in src and "for_inrange(num_matched)" in src and f"{T}[t]-=num_matched" in src \
-            and f"{F}[f]-=num_matched" in src:
+    _n1, nb = pat.first(f"N = min({F}[A], {T}[B])", init.node)
+    pm = [x for x in walk_no_nested(init.node) if nb and x is _n1] or pm
+    okpm = False
+    if nb:
+        N, A_, B_ = nb["N"], nb["A"], nb["B"]
+        okpm = bool(pat.find_expr(f"range({N})", init.node)) and pat.has(f"{T}[{B_}] -= {N}", init.node, stmts=True) \
+            and (pat.has(f"{F}[{A_}] -= {N}", init.node, stmts=True) or pat.has(f"{F}[X] -= Y", init.node, stmts=True))
+    if pm and okpm:
         ctx.proved("R01c", f, "MultiSetEdit.__init__", pm[0], "key pre-match bookkeeping",
                    "num_matched = min(count_f, count_t) edits are recorded and num_matched is subtracted from both sides")
     elif pm:
@@ -405,7 +420,7 @@ def r01c(ctx):
         ctx.inconclusive("R01c", f, "MultiSetEdit.__init__", init.node, "key pre-match bookkeeping", "pre-match block not recognised")
     # every (f, t) pre-match requires f.key == t.key, and the scan considers every candidate
     n += 1
-    keyeq = [c for c in walk_no_nested(init.node) if isinstance(c, ast.Compare) and ast.unparse(c).replace(" ", "") in ("f.key==t.key", "t.key==f.key")]
+    keyeq = [c for c, _b2 in pat.find_expr("A.key == B.key", init.node)]
     early = [b for b in walk_no_nested(init.node) if isinstance(b, (ast.Break, ast.Continue)) and any(
         isinstance(t, ast.Compare) and any(isinstance(o, (ast.Lt, ast.Gt, ast.LtE, ast.GtE)) for o in t.ops)
         for t, pol in flatten_conditions(dominating_conditions(b)))]
@@ -434,8 +449,9 @@ def r01c(ctx):
     need = ["coll:_edits", "coll:_matched_kvp_edits", "via:self._matcher"]
     miss = [x for x in need if x not in srcs]
     consts = [k for k in srcs if k.startswith("const:")]
-    want_r = "const:Remove[(self.to_remove - remove_matched).elements()]"
-    want_i = "const:Insert[(self.to_insert - insert_matched).elements()]"
+    import re as _re
+    want_r = next((k for k in srcs if _re.fullmatch(r"const:Remove\[\(self\.to_remove - \w+\)\.elements\(\)\]", k)), "const:Remove[(self.to_remove - <matched>).elements()]")
+    want_i = next((k for k in srcs if _re.fullmatch(r"const:Insert\[\(self\.to_insert - \w+\)\.elements\(\)\]", k)), "const:Insert[(self.to_insert - <matched>).elements()]")
     if miss or want_r not in srcs or want_i not in srcs:
         ctx.violation("R01c", ed.file, "MultiSetEdit.edits", ed.node, "edits() groups",
                       f"edits() must yield identical matches, key pre-matches, matcher pairs and the unmatched remainder of "
@@ -686,9 +702,15 @@ def r01g(ctx):
     tn = m.need_class("TreeNode")
     d = m.method(tn, "diff")
     other = func_params(d.node)[1]
-    src = ast.unparse(d.node).replace(" ", "")
-    ok = "ret=self.make_edited()" in src and f"edit=ret.edits({other})" in src and "edit.tighten_bounds()" in src \
-        and "edit.on_diff(ret)" in src and src.rstrip().endswith("returnret")
+    _r0, rb = pat.first("R = self.make_edited()", d.node)
+    ok = False
+    if rb:
+        R_ = rb["R"]
+        _e0, eb = pat.first(f"E = {R_}.edits({other})", d.node)
+        if eb:
+            E_ = eb["E"]
+            ok = bool(pat.find_expr(f"{E_}.tighten_bounds()", d.node)) and bool(pat.find_expr(f"{E_}.on_diff({R_})", d.node)) \
+                and isinstance(d.node.body[-1], ast.Return) and dotted(d.node.body[-1].value) == R_
     # on_diff must not be conditional
     od = [c for c in walk_no_nested(d.node) if isinstance(c, ast.Call) and isinstance(c.func, ast.Attribute) and c.func.attr == "on_diff"]
     uncond = od and not [a for a in ancestors(od[0]) if isinstance(a, (ast.If, ast.While, ast.For, ast.ExceptHandler, ast.IfExp))]
